@@ -13,6 +13,13 @@ summary over callees), WSGI and ASGI twins alike.
 R12: the matcher add_sink stores, evaluated on the two documented entrances of `prefix` (str / pattern object): a pattern object is
 stored as it is (identity, flags kept), a str is re.compile()d.  R4 also: the list the 405 closures keep is a materialised sequence
 on every path.  R5: the responder name is evaluated through the locals bound on the path (pieces: literal / suffix / opaque).
+Wave k3 (behaviour-preserving patches): `_get_responder` is judged per RETURN (Dispatch.defs: the value of a tuple position at a
+return is the expression written there or what reaches the local named there; everything is queried at the function exit), so
+early returns read like the for/else + single return; the closures of the two responder factories, `_get_responder`,
+`map_http_methods` are read through `inlined_view` (c01_helpers: a local that only names an attribute chain is the chain; a
+statement / tail / value call of a plain module-level, same-class or sibling helper is its body), `set_default_responders` and
+the registration functions through `aliased_view`.  A response object or method list handed to a callee that is not read in
+place is UnknownIdiom (exit 2), never "the header is missing".
 Roles inside those functions are found by def-use from contract positions
 (return-tuple positions of `_get_responder`, parameter positions, the 3-tuple
 shape `(matcher, object, is_sink)` of the fallback table).
@@ -1703,13 +1710,36 @@ def r4_allow(run):
         return (v is not None and isinstance(v, ast.Call) and isinstance(v.func, ast.Name) and v.func.id in ('list', 'tuple')
                 and len(v.args) == 1 and not v.keywords and isinstance(v.args[0], ast.Name) and v.args[0].id == naparams[0])
 
+    e405 = p.func('falcon.errors.HTTPMethodNotAllowed.__init__')
+    list_param = e405.params()[1] if len(e405.params()) > 1 else None      # the constructor's own name for the method list
+
+    def raised(g, r):
+        # what `raise X` raises: the call written there, or - `error = Cls(..); raise error` - the call a local of the CLOSURE is
+        # bound to exactly once (built per request, like the direct spelling)
+        e = r.exc
+        if isinstance(e, ast.Name) and e.id not in g.params():
+            vals = [n.value for n in walk_self(g.node) if isinstance(n, (ast.Assign, ast.AnnAssign)) and n.value is not None
+                    for t in (n.targets if isinstance(n, ast.Assign) else [n.target]) if isinstance(t, ast.Name) and t.id == e.id]
+            stores = [x for x in ast.walk(g.node) if isinstance(x, ast.Name) and x.id == e.id and not isinstance(x.ctx, ast.Load)]
+            if len(vals) == 1 and len(stores) == 1:
+                return vals[0]
+        return e
+
+    def sole_argument(c: ast.Call):
+        # the method list handed positionally or by the constructor's parameter name
+        if len(c.args) == 1 and not c.keywords:
+            return c.args[0]
+        if not c.args and len(c.keywords) == 1 and c.keywords[0].arg is not None and c.keywords[0].arg == list_param:
+            return c.keywords[0].value
+        return None
+
     for g0 in _returned_closures(fna):
         g = inlined_view(p, g0)
         raises = [n for n in walk_self(g.node) if isinstance(n, ast.Raise)]
         if not raises:
             _unread_escape(p, g, [naparams[0]], 'the method list')
-        ok = len(raises) == 1 and isinstance(raises[0].exc, ast.Call) and is_405_class(g, raises[0].exc.func) \
-            and len(raises[0].exc.args) == 1 and not raises[0].exc.keywords and is_method_list(raises[0].exc.args[0])
+        exc = raised(g, raises[0]) if len(raises) == 1 else None
+        ok = isinstance(exc, ast.Call) and is_405_class(g, exc.func) and sole_argument(exc) is not None and is_method_list(sole_argument(exc))
         run.check(ok, 'the default 405 responder raises HTTPMethodNotAllowed with the factory\'s method list', g, raises[0] if raises else g.node.name)
     # OPTIONS closure: 200 + Allow: <snapshot>
     status200 = p.fold(fopt.module, ast.Name('HTTP_200', ast.Load()), None, None)
@@ -3051,7 +3081,7 @@ def r9_flavour_flag(run):
     W: WSGI App(router=custom) whose add_route() calls set_default_responders(method_map): POST on a GET-only
     resource answers 200 without Allow (a coroutine 405 responder is created and never awaited)."""
     p = run.project
-    sdr = p.func(UTIL + '.set_default_responders')
+    sdr = aliased_view(p, p.func(UTIL + '.set_default_responders'))      # (`create = responders.create_method_not_allowed; create(...)`)
     facs = [p.func(RESP + '.create_method_not_allowed'), p.func(RESP + '.create_default_options')]
     flags: Dict[str, str] = {fac.qual: _factory_flag(p, fac) for fac in facs}
     # the flag of set_default_responders: the one parameter that reaches the factories' flag
@@ -3097,6 +3127,9 @@ def r9_flavour_flag(run):
     names = {f.name for f in targets.values()}
     n_sites = 0
     for g in list(p.funcs.values()):
+        if not any((isinstance(x, ast.Attribute) and x.attr in names) or (isinstance(x, ast.Name) and x.id in names) for x in walk_self(g.node)):
+            continue
+        g = aliased_view(p, g)      # (a call through a local alias of the helper is a call of the helper)
         for c in walk_self(g.node):
             if not isinstance(c, ast.Call):
                 continue
